@@ -164,10 +164,10 @@ func runC37(r *simrt.Run) {
 
 func init() {
 	AddOp("tiny_relays", (*Sim).opTinyRelays)
-	simrt.Register("C09", &simrt.PropSpec{Fn: runC09, NonTrivial: historyNonTrivial,
-		Rule:    "each run draws a history theme: the generic multi-actor generator (stake/unstake/freeze/move, dual-staking and staking-module delegations, subscriptions, projects, keys, policies, relay payments with QoS; one variant with 1..3-CU relays and zero QoS) or the generator of one of the other chain properties (C02-C08, C10-C13, C16-C24, C42: plan/spec governance, IPRPC funding, slashes, complaints and jailing, conflicts and votes, parameter changes, spec contributors, badges, reputation) whose own oracles are ignored here; the bond-denom supply is compared across every transaction and every BeginBlock+EndBlock pair of the history (harness-side account funding between them is re-based). Non-trivial = >=10 accepted operations and >=20 observed blocks; distinct = (op,outcome,fault) sequence hash",
-		Real:    chainReal, Stubbed: chainStub, Assume: chainAssume})
-	simrt.Register("C37", &simrt.PropSpec{Fn: runC37, NonTrivial: historyNonTrivial,
-		Rule:    "same themed histories as C09 with recover() around every Begin/EndBlock: a recovered panic on a history of committed transactions is the violation (signature = first lava frame). Non-trivial = >=10 accepted operations and >=20 observed blocks",
-		Real:    chainReal, Stubbed: chainStub, Assume: chainAssume})
+	simrt.Register("C09", &simrt.PropSpec{Fn: runC09, NonTrivial: historyNonTrivial, RunWallS: 600,
+		Rule: "each run draws a history theme: the generic multi-actor generator (stake/unstake/freeze/move, dual-staking and staking-module delegations, subscriptions, projects, keys, policies, relay payments with QoS; one variant with 1..3-CU relays and zero QoS) or the generator of one of the other chain properties (C02-C08, C10-C13, C16-C24, C42: plan/spec governance, IPRPC funding, slashes, complaints and jailing, conflicts and votes, parameter changes, spec contributors, badges, reputation) whose own oracles are ignored here; the bond-denom supply is compared across every transaction and every BeginBlock+EndBlock pair of the history (harness-side account funding between them is re-based). Non-trivial = >=10 accepted operations and >=20 observed blocks; distinct = (op,outcome,fault) sequence hash",
+		Real: chainReal, Stubbed: chainStub, Assume: chainAssume})
+	simrt.Register("C37", &simrt.PropSpec{Fn: runC37, NonTrivial: historyNonTrivial, RunWallS: 600,
+		Rule: "same themed histories as C09 with recover() around every Begin/EndBlock: a recovered panic on a history of committed transactions is the violation (signature = first lava frame). Non-trivial = >=10 accepted operations and >=20 observed blocks",
+		Real: chainReal, Stubbed: chainStub, Assume: chainAssume})
 }
